@@ -195,7 +195,10 @@ def complete_meta(rng, feats, n, shape=None, traces=None):
     if rng.random() < 0.3:
         meta["online_filter"] = {"target event count": int(rng.integers(0, 10000)),
                                  "area_um min": 10.0, "area_um max": 200.0,
-                                 "area_um soft limit": bool(rng.integers(0, 2))}
+                                 # (any representation of a boolean the key accepts)
+                                 "area_um soft limit": [True, False, 0, 1, "True", "False",
+                                                        np.int64(1), np.bool_(False)][
+                                     int(rng.integers(0, 8))]}
     if rng.random() < 0.4:
         meta["user"] = {"my key": float(rng.normal()), "note": "ünï code",
                         "count": int(rng.integers(0, 100)), "flag": bool(rng.integers(0, 2))}
